@@ -326,3 +326,31 @@ def check_metadata(tree, what, bad):
                 fresh = True
     if not fresh:
         bad('C14-metadata', f'{what}: ParsedObject.__init__ does not give every object its own _Metadata()')
+    # a freshly constructed object has *empty* metadata: transform() decides "the replacement has no
+    # metadata of its own" by the truth value of _metadata (its __len__), and _finalize by the
+    # truth value of position_info
+    if init is not None:
+        for node in ast.walk(init):
+            if isinstance(node, ast.Call) and ast.unparse(node.func) == '_Metadata' and (node.args or node.keywords):
+                bad('C16-metadata', f'{what}: ParsedObject.__init__ creates the metadata with initial entries '
+                                    f'({ast.unparse(node)}): `not obj._metadata` is then false for every new object, '
+                                    f'so transform() never hands the position of a replaced node to its replacement')
+            if isinstance(node, (ast.Assign, ast.AugAssign)):
+                tgt = node.targets[0] if isinstance(node, ast.Assign) else node.target
+                if isinstance(tgt, (ast.Attribute, ast.Subscript)) and '_metadata' in ast.unparse(tgt.value):
+                    bad('C16-metadata', f'{what}: ParsedObject.__init__ stores an entry into the new metadata '
+                                        f'({ast.unparse(tgt)}): a new object no longer has empty metadata')
+    minit = method(md, '__init__')
+    if minit is not None:
+        kw = minit.args.kwarg.arg if minit.args.kwarg else None
+        for node in ast.walk(minit):
+            seeded = (isinstance(node, ast.Dict) and any(k is not None for k in node.keys)) or (
+                isinstance(node, ast.Call) and ast.unparse(node.func) in ('dict', 'fields.update', f'{kw}.update')
+                and node.keywords and any(k.arg is not None for k in node.keywords)) or (
+                isinstance(node, ast.Subscript) and isinstance(node.ctx, ast.Store) and isinstance(node.slice, ast.Constant))
+            if seeded:
+                bad('C16-metadata', f'{what}: _Metadata.__init__ seeds entries of its own ({ast.unparse(node)[:60]}): '
+                                    f'metadata created without arguments is no longer empty')
+        if minit.args.defaults or any(d is not None for d in minit.args.kw_defaults):
+            bad('C16-metadata', f'{what}: _Metadata.__init__ has defaulted entries: metadata created without '
+                                f'arguments is no longer empty')
